@@ -359,6 +359,27 @@ def writer_octets(eng, st, toks):
     return out
 
 
+def split_known_bytes(eng, st, toks):
+    """writer tokens with a `write_bytes` of individually known octets (a pre-assembled header array) replaced by the
+    integer tokens those octets regroup to; left alone when they do not regroup into whole values and constants"""
+    out = []
+    for t in toks:
+        if t["k"] == "bytes" and t["desc"][0] in ("elems", "be") and t["n"].is_const():
+            octs = writer_octets(eng, st, [t])
+            if len(octs) == t["n"].c and all(o[0] in ("f", "c") for o in octs):
+                items = _merge_octets(eng, octs, lambda b: ("int", b), lambda b: _sym_bits(eng, b))
+                if items and all(it[0] in ("int", "zero", "const") for it in items):
+                    for it in items:
+                        if it[0] == "int":
+                            out.append({"k": "int", "n": Lin.const(it[1]), "val": VInt(None, Lin.sym(it[2])), "prov": ("sym", it[2]), "site": t["site"]})
+                        else:
+                            c = 0 if it[0] == "zero" else it[2]
+                            out.append({"k": "int", "n": Lin.const(it[1]), "val": VInt(None, Lin.const(c)), "prov": ("const", c), "site": t["site"]})
+                    continue
+        out.append(t)
+    return out
+
+
 def compose_octets(eng, st, octs):
     """the big-endian value of a run of octet descriptors as a Lin over the base symbols (quotient/remainder symbols
     are created in `st` for partial fields); None if some octet is not understood"""
@@ -421,6 +442,19 @@ def _merge_octets(eng, octs, name_of, width_of):
                 j += 1
             if val == 0:
                 items.append(("zero", j - i))
+            elif j - i > 2 and octs[j - 1][1] == 0:
+                # a constant followed by reserved zero octets in one pre-assembled run: the value, then the zeros
+                k = j
+                while k > i and octs[k - 1][1] == 0:
+                    k -= 1
+                if (k - i) % 2:
+                    k += 1          # (values are whole 16-bit words here: keep an even number of octets for the value)
+                v2 = 0
+                for x in octs[i:k]:
+                    v2 = v2 * 256 + x[1]
+                items.append(("const", k - i, v2))
+                if j > k:
+                    items.append(("zero", j - k))
             else:
                 items.append(("const", j - i, val))
             i = j
@@ -523,7 +557,23 @@ def canon_writer(eng, st, toks, prefix="self.*"):
             out.append(("expr", 1, it[1]))
         else:
             out.append(it)
-    return _merge_zero(out)
+    # the elements NAME[0], NAME[1], .., NAME[n-1] of one array field, emitted one after the other, are that field
+    import re as _re
+    merged = []
+    i = 0
+    while i < len(out):
+        m = _re.match(r"^(.*)\[(\d+)\]$", out[i][2]) if out[i][0] == "int" and out[i][1] == 1 and isinstance(out[i][2], str) else None
+        if m and m.group(2) == "0":
+            j = i
+            while j + 1 < len(out) and out[j + 1][0] == "int" and out[j + 1][1] == 1 and out[j + 1][2] == "%s[%d]" % (m.group(1), j + 1 - i):
+                j += 1
+            if j > i:
+                merged.append(("bytes", j - i + 1, m.group(1)))
+                i = j + 1
+                continue
+        merged.append(out[i])
+        i += 1
+    return _merge_zero(merged)
 
 
 def canon_reader(eng, st, rt, payload):
